@@ -124,6 +124,40 @@ func LoadCorpus(repo string) (*Corpus, error) {
 			}
 		}
 	}
+	// a payment settling several documents whose tax summaries differ in shape (same
+	// category and percentage, one with an equivalence surcharge, one without, a second
+	// category): exercises the merge of tax summaries, which no shipped example does
+	if base := c.byName["examples/es/payment-with-tax"]; base != nil && base.Err == "" {
+		if v, err := ParseJV(base.Src); err == nil {
+			root := v
+			if root.Get("doc") != nil {
+				root = root.Get("doc")
+			}
+			if ls := root.Get("lines"); ls != nil && len(ls.A) == 1 {
+				mk := func(i int, rates string) *JV {
+					l := ls.A[0].Clone()
+					if doc := l.Get("document"); doc != nil {
+						doc.Set("code", JStr(fmt.Sprintf("00%d", i+1)))
+						doc.Del("uuid")
+						if nv, err := ParseJV([]byte(rates)); err == nil {
+							doc.Set("tax", nv)
+						}
+					}
+					return l
+				}
+				ls.A = append(ls.A,
+					mk(1, `{"categories":[{"code":"VAT","rates":[{"base":"1000.00","percent":"21.0%","surcharge":{"percent":"5.2%"}}]}]}`),
+					mk(2, `{"categories":[{"code":"VAT","rates":[{"base":"500.00","percent":"10.0%"},{"base":"200.00","percent":"21.0%"}]},{"code":"IRPF","retained":true,"rates":[{"base":"700.00","percent":"15.0%"}]}]}`))
+				d := &Doc{Name: "synthetic/es-payment-mixed-tax", Src: v.Encode(nil), IsEnv: base.IsEnv}
+				buildDoc(d, len(c.Docs))
+				if d.Err == "" {
+					c.Docs = append(c.Docs, d)
+					c.byName[d.Name] = d
+					c.Valid = append(c.Valid, d)
+				}
+			}
+		}
+	}
 	if len(c.Valid) < 10 {
 		msg := ""
 		for _, d := range c.Docs {
